@@ -459,6 +459,8 @@ type Query struct {
 	// observed by "meta": every typed accessor of the descriptor (coq/Meta.v meta_view)
 	Name, Arch, FP, Digest []byte
 	Nums                   []int64
+	// observed by "header": the accessors of the image header (coq/Meta.v header_view); Arch and Nums too
+	Launch, Version, HID []byte
 }
 
 func (q Query) Coq() string {
@@ -474,6 +476,8 @@ func (q Query) Coq() string {
 		qs = "QOne [" + strings.Join(sels, "; ") + "]"
 	case "meta":
 		qs = fmt.Sprintf("QMeta %d", q.ID)
+	case "header":
+		qs = "QHeader"
 	default:
 		qs = fmt.Sprintf("QData %d", q.ID)
 	}
@@ -481,6 +485,12 @@ func (q Query) Coq() string {
 	switch {
 	case q.Err != "":
 		ob = "QErr " + q.Err
+	case q.Kind == "header":
+		var ns []string
+		for _, n := range q.Nums {
+			ns = append(ns, CoqZ(n))
+		}
+		ob = fmt.Sprintf("QHdr %s %s %s %s [%s]", CoqBytes(q.Launch), CoqBytes(q.Version), CoqBytes(q.Arch), CoqBytes(q.HID), strings.Join(ns, ";"))
 	case q.Kind == "meta":
 		var ns []string
 		for _, n := range q.Nums {
